@@ -288,7 +288,7 @@ theorem matsumoto_le_fid (ρ σ : Matrix (Fin n) (Fin n) ℂ) (hρ : ρ.PosSemid
     exact le_fidV_gen hF
 
 /-- If the Matsumoto primal checker accepts with value `lo`, then `W` is Hermitian and feasible with
-`Re tr W = lo`; hence `lo ≤ matsumoto ρ σ ≤ fid ρ σ`-side bounds: `lo ≤ matsumoto ρ σ` and `lo ≤ fid ρ σ`. -/
+`Re tr W = lo`; hence `lo ≤ matsumoto ρ σ` and `lo ≤ fid ρ σ`. -/
 theorem checkMatsPrimal_sound (ρ σ W : EMat n n) (L : EMat (n + n) r) (lo : Rat)
     (h : checkMatsPrimal ρ σ W L = some lo) :
     W.toM.IsHermitian ∧ FidFeasible ρ.toM σ.toM W.toM ∧ W.toM.trace.re = (lo : ℝ) ∧
@@ -364,5 +364,86 @@ theorem subFidRad_eq (ρ σ : EMat n n) :
   rw [Rat.cast_mul, Rat.cast_sub, Rat.cast_mul, trProd_cast, trProd4_cast]
   norm_num
   ring
+
+/-! ## The checkers accept concrete instances
+
+`ρ = |0⟩⟨0|`, `σ = |+i⟩⟨+i|` (complex, non-commuting; `‖ρ − σ‖₁ = √2`, `F = 1/√2`): a contraction with value
+`60/53 ≈ 1.132` and a decomposition with value `21/13 ≈ 1.615`; a congruence certificate `X = G_ρ K G_σᴴ` with value `7/10`
+and an exactly inverted dual pair with value `1137/1600 ≈ 0.7106`.  `ρ = diag(3/4, 1/4)`, `σ = [[1/2, −i/4], [i/4, 1/2]]`
+(full rank; `tr(ρ # σ) ≈ 0.9258`): Matsumoto certificates with values `48/61 ≈ 0.787` and `≈ 1.126`. -/
+
+section Examples
+
+private def exρ : EMat 2 2 := EMat.ofRows #[#[⟨1, 0⟩, ⟨0, 0⟩], #[⟨0, 0⟩, ⟨0, 0⟩]] 2 2
+private def exσ : EMat 2 2 := EMat.ofRows #[#[⟨1/2, 0⟩, ⟨0, -1/2⟩], #[⟨0, 1/2⟩, ⟨1/2, 0⟩]] 2 2
+
+example : checkTNLower (exρ - exσ)
+    (EMat.ofRows #[#[⟨30/53, 0⟩, ⟨0, 30/53⟩], #[⟨0, -30/53⟩, ⟨-30/53, 0⟩]] 2 2)
+    (EMat.ofRows #[#[⟨618/1069, 0⟩, ⟨0, 0⟩], #[⟨0, 1641/1676⟩, ⟨954/1339, 0⟩]] 2 2 : EMat 2 2)
+    (EMat.ofRows #[#[⟨2199/1816, 0⟩, ⟨0, 0⟩], #[⟨0, -596/1275⟩, ⟨183/538, 0⟩]] 2 2 : EMat 2 2) = some (60/53) := by decide +kernel
+
+example : checkTNUpper (exρ - exσ)
+    (EMat.ofRows #[#[⟨17/26, 0⟩, ⟨0, 1/4⟩], #[⟨0, -1/4⟩, ⟨2/13, 0⟩]] 2 2)
+    (EMat.ofRows #[#[⟨2/13, 0⟩, ⟨0, -1/4⟩], #[⟨0, 1/4⟩, ⟨17/26, 0⟩]] 2 2)
+    (EMat.ofRows #[#[⟨693/874, 0⟩, ⟨0, 0⟩], #[⟨0, -437/1386⟩, ⟨185/1081, 0⟩]] 2 2 : EMat 2 2)
+    (EMat.ofRows #[#[⟨527/1469, 0⟩, ⟨0, 0⟩], #[⟨0, 1046/1501⟩, ⟨160/423, 0⟩]] 2 2 : EMat 2 2) = some (21/13) := by decide +kernel
+
+example : checkFidPrimalCong exρ exσ
+    (EMat.ofRows #[#[⟨7/10, 0⟩, ⟨0, -7/10⟩], #[⟨0, 0⟩, ⟨0, 0⟩]] 2 2)
+    (EMat.ofRows #[#[⟨1, 0⟩, ⟨0, 0⟩], #[⟨0, 0⟩, ⟨0, 0⟩], #[⟨0, 0⟩, ⟨1, 0⟩], #[⟨0, 0⟩, ⟨0, 1⟩]] 4 2 : EMat (2 + 2) 2)
+    (EMat.ofRows #[#[⟨1, 0⟩, ⟨7/10, 0⟩], #[⟨7/10, 0⟩, ⟨1/2, 0⟩]] 2 2)
+    (EMat.ofRows #[#[⟨1, 0⟩, ⟨0, 0⟩], #[⟨7/10, 0⟩, ⟨0, 0⟩]] 2 2 : EMat 2 2) = some (7/10) := by decide +kernel
+
+example : checkFidDual exρ exσ
+    (EMat.ofRows #[#[⟨16/25, 0⟩, ⟨0, -16/25⟩], #[⟨0, 16/25⟩, ⟨89/100, 0⟩]] 2 2)
+    (EMat.ofRows #[#[⟨89/16, 0⟩, ⟨0, 4⟩], #[⟨0, -4⟩, ⟨4, 0⟩]] 2 2)
+    (EMat.ofRows #[#[⟨4/5, 0⟩, ⟨0, 0⟩], #[⟨0, 4/5⟩, ⟨1/2, 0⟩], #[⟨-5/4, 0⟩, ⟨0, -2⟩], #[⟨0, 0⟩, ⟨-2, 0⟩]] 4 2 : EMat (2 + 2) 2) = some (1137/1600) := by decide +kernel
+
+private def exρ' : EMat 2 2 := EMat.ofRows #[#[⟨3/4, 0⟩, ⟨0, 0⟩], #[⟨0, 0⟩, ⟨1/4, 0⟩]] 2 2
+private def exσ' : EMat 2 2 := EMat.ofRows #[#[⟨1/2, 0⟩, ⟨0, -1/4⟩], #[⟨0, 1/4⟩, ⟨1/2, 0⟩]] 2 2
+
+example : checkMatsPrimal exρ' exσ'
+    (EMat.ofRows #[#[⟨30/61, 0⟩, ⟨0, -6/61⟩], #[⟨0, 6/61⟩, ⟨18/61, 0⟩]] 2 2)
+    (EMat.ofRows #[#[⟨1343/1573, 0⟩, ⟨0, 0⟩, ⟨0, 0⟩, ⟨0, 0⟩], #[⟨0, 0⟩, ⟨845/1766, 0⟩, ⟨0, 0⟩, ⟨0, 0⟩], #[⟨322/559, 0⟩, ⟨0, -347/1688⟩, ⟨569/1757, 0⟩, ⟨0, 0⟩], #[⟨0, 222/1927⟩, ⟨539/874, 0⟩, ⟨0, 292/1663⟩, ⟨350/1499, 0⟩]] 4 4 : EMat (2 + 2) 4) = some (48/61) := by decide +kernel
+
+example : checkMatsDual exρ' exσ'
+    (EMat.ofRows #[#[⟨56/59, 0⟩, ⟨0, -9/34⟩], #[⟨0, 9/34⟩, ⟨48/29, 0⟩]] 2 2)
+    (EMat.ofRows #[#[⟨47/30, 0⟩, ⟨0, 6/17⟩], #[⟨0, -6/17⟩, ⟨55/53, 0⟩]] 2 2)
+    (EMat.ofRows #[#[⟨-1, 0⟩, ⟨0, -1/7⟩], #[⟨0, -1/7⟩, ⟨-1, 0⟩]] 2 2)
+    (EMat.ofRows #[#[⟨1821/1976, 0⟩, ⟨0, 0⟩, ⟨0, 0⟩, ⟨0, 0⟩], #[⟨0, 27/94⟩, ⟨1608/1325, 0⟩, ⟨0, 0⟩, ⟨0, 0⟩], #[⟨-2129/1962, 0⟩, ⟨0, -154/1107⟩, ⟨783/1507, 0⟩, ⟨0, 0⟩], #[⟨0, 275/1774⟩, ⟨-1662/1931, 0⟩, ⟨0, -170/1359⟩, ⟨459/1157, 0⟩]] 4 4 : EMat (2 + 2) 4) = some (208245887/184993320) := by decide +kernel
+
+example : hsDist exρ exσ = 1 ∧ trProd exρ exσ = 1/2 ∧ subFidRad exρ exσ = 0 ∧
+    hsInner exσ exρ = ⟨1/2, 0⟩ := by decide +kernel
+
+/-- hypotheses of `traceDist_eq_one_of_orthogonal` and `fid_eq_zero_of_orthogonal` are satisfiable:
+`ρ = |0⟩⟨0|`, `σ = |1⟩⟨1|`, `W = diag(1, −1)`, `Π = ρ` -/
+example : ∃ ρ σ W : Matrix (Fin 2) (Fin 2) ℂ, IsDensity ρ ∧ IsDensity σ ∧ IsContraction W ∧
+    W * ρ = ρ ∧ W * σ = -σ ∧ ρ.IsHermitian ∧ ρ * ρ = ρ ∧ ρ * σ = 0 := by
+  have h0 : (0 : ℝ) ≤ 1 := zero_le_one
+  have hd : ∀ a b : ℝ, 0 ≤ a → 0 ≤ b →
+      (Matrix.diagonal (fun i : Fin 2 => (((if i = 0 then a else b : ℝ)) : ℂ))).PosSemidef := by
+    intro a b ha hb
+    refine Matrix.PosSemidef.diagonal fun i => ?_
+    by_cases h : i = 0 <;> simp [h, ha, hb]
+  refine ⟨Matrix.diagonal (fun i : Fin 2 => (((if i = 0 then 1 else 0 : ℝ)) : ℂ)),
+    Matrix.diagonal (fun i : Fin 2 => (((if i = 0 then 0 else 1 : ℝ)) : ℂ)),
+    Matrix.diagonal (fun i : Fin 2 => (((if i = 0 then 1 else -1 : ℝ)) : ℂ)),
+    ⟨hd 1 0 h0 le_rfl, by simp [Matrix.trace, Fin.sum_univ_two]⟩,
+    ⟨hd 0 1 le_rfl h0, by simp [Matrix.trace, Fin.sum_univ_two]⟩, ⟨?_, ?_⟩, ?_, ?_, ?_, ?_, ?_⟩
+  · have : (1 : Matrix (Fin 2) (Fin 2) ℂ) - Matrix.diagonal (fun i : Fin 2 => (((if i = 0 then 1 else -1 : ℝ)) : ℂ))
+        = Matrix.diagonal (fun i : Fin 2 => (((if i = 0 then 0 else 2 : ℝ)) : ℂ)) := by
+      ext i j; fin_cases i <;> fin_cases j <;> simp [Matrix.diagonal] <;> norm_num
+    rw [this]; exact hd 0 2 le_rfl (by norm_num)
+  · have : (1 : Matrix (Fin 2) (Fin 2) ℂ) + Matrix.diagonal (fun i : Fin 2 => (((if i = 0 then 1 else -1 : ℝ)) : ℂ))
+        = Matrix.diagonal (fun i : Fin 2 => (((if i = 0 then 2 else 0 : ℝ)) : ℂ)) := by
+      ext i j; fin_cases i <;> fin_cases j <;> simp [Matrix.diagonal] <;> norm_num
+    rw [this]; exact hd 2 0 (by norm_num) le_rfl
+  · rw [Matrix.diagonal_mul_diagonal]; congr 1; ext i; fin_cases i <;> simp
+  · rw [Matrix.diagonal_mul_diagonal, Matrix.diagonal_neg]; congr 1; ext i; fin_cases i <;> simp
+  · exact Matrix.isHermitian_diagonal_of_self_adjoint _ (by ext i; by_cases h : i = 0 <;> simp [h])
+  · rw [Matrix.diagonal_mul_diagonal]; congr 1; ext i; fin_cases i <;> simp
+  · rw [Matrix.diagonal_mul_diagonal, ← Matrix.diagonal_zero]; congr 1; ext i; fin_cases i <;> simp
+
+end Examples
 
 end Toq.C13
